@@ -384,9 +384,11 @@ def check(ctx):
     guards10 = [n for n in ast.walk(un.node) if isinstance(n, ast.If) and "issubclass(str, cls)" in norm(n.test) and "Collection" in norm(n.test)]
     picked = None
     for g in guards10:
-        for a in ast.walk(g):
-            if isinstance(a, ast.Assign) and isinstance(a.value, ast.Name) and f"{SER_MOD}.{a.value.id}" in model.classes:
-                picked = a.value.id
+        # the class chosen under the guard: assigned to a class-valued local (`alt_cls = X`) or instantiated there (`X(cls, method)`)
+        for b in g.body:
+            for a in ast.walk(b):
+                if isinstance(a, ast.Name) and isinstance(a.ctx, ast.Load) and f"{SER_MOD}.{a.id}" in model.classes and picked is None:
+                    picked = a.id
     ctx.check(picked is not None, "C13.R10", f"{un.qualname}:abstract-collection", None,
               "every alternative is matched with a bare isinstance(obj, cls): for Union[Sequence[str], str] the value 'ab' is an instance of Sequence and is serialized as ['a', 'b'] (and differently with check_type=True when the item type is not str)",
               un, un.node, detail="alternatives whose class str / bytes are instances of get a guarding alternative")
